@@ -178,7 +178,8 @@ func sendTCP(conn *net.TCPConn, b []byte) ([]byte, error) {
 	}
 
 	sh := make([]byte, 4, 4)
-	_, err = conn.Read(sh)
+	// A single Read may return fewer than the four header bytes: read the whole header.
+	_, err = io.ReadFull(conn, sh)
 	if err != nil {
 		return r, fmt.Errorf("error reading response size header: %v", err)
 	}
